@@ -1,25 +1,21 @@
-(* Modifications that change the FORS indices (the message, or R, changed and
-   the new digest selects other FORS leaves -- but the same hypertree leaf):
-   the explicit TARGET-SUBSET event, in reduction form.
+(* Modifications that change the digest (the message or R changed): what an
+   accepted signature must contain -- the explicit TARGET-SUBSET event.
 
-   Two accepted (message, signature) pairs under one public key whose digests
-   select the same (idx_tree, idx_leaf), with ARBITRARY FORS indices ind, ind':
-   the hypertree parts are equal and, for EVERY FORS tree i,
-     - ind_i = ind'_i and the two signatures reveal the same secret value and the
-       same authentication path there, or
-     - ind_i <> ind'_i and the two openings CROSS: at some height kk (the highest
-       bit where the two indices differ) the node the second signature computes
-       from ITS revealed leaf and ITS lower authentication nodes is the
-       authentication node of the FIRST signature at height kk (and vice versa),
-       and the authentication nodes above kk coincide -- every index of the
-       second digest lands on a leaf that is consistent with the FORS tree the
-       first signature commits to;
-   or the located WOTS+ switch of proofs/SlhdsaForgery.v is true of the pair, or
-   a same-tweak collision exists.  With the first signature genuine, the
-   authentication nodes are the true tree nodes, so the second signature had to
-   reveal, for each of its k indices, a value hashing to the true subtree node:
-   the secret leaf value (PRF output) itself, or a second preimage.
-   Not covered: digests selecting a different (idx_tree, idx_leaf). *)
+   For a key pair generated from (SK.seed, PK.seed), ANY signature sig' accepted
+   for a message msg is compared with the signature the key holder's algorithm
+   produces for msg with the same randomizer R' = sig'[0:n] (`genuine_sig`: the
+   body of slh_sign_internal with R given).  Both verify for the same digest, so
+   (proofs/SlhdsaForgery.v) sig' has the GENUINE body, or the located WOTS+
+   switch or a located same-tweak collision is true of the pair.  Having the
+   genuine body means: for each of the k FORS indices ind'_i that the digest of
+   (R', msg) selects, sig' reveals exactly the secret PRF(PK.seed, SK.seed,
+   FORS_PRF address of leaf ind'_i) -- the forger hit, with all k indices, leaves
+   whose secret values it knows.  From earlier signatures it knows only the
+   values at the indices those signatures' digests selected: this is the
+   (interleaved) target-subset event of H_msg, stated on the nose; that it is
+   infeasible is target-subset resilience + PRF secrecy (not hash laws here).
+   No assumption relates sig' to any earlier signature, and the digest may
+   select any hypertree leaf. *)
 From Coq Require Import List NArith Bool Arith Lia ZifyN ZifyNat ZifyBool.
 From Tink Require Import Bytes SlhdsaSupport SlhdsaAddr SlhdsaBase SlhdsaWots SlhdsaXmss SlhdsaFors SlhdsaHt Slhdsa
   SlhdsaSpec SlhdsaListProofs SlhdsaSupportProofs SlhdsaWotsProofs SlhdsaXmssProofs SlhdsaForsProofs SlhdsaHtProofs
@@ -27,259 +23,150 @@ From Tink Require Import Bytes SlhdsaSupport SlhdsaAddr SlhdsaBase SlhdsaWots Sl
 Import ListNotations.
 Open Scope nat_scope.
 
-Section MERGE.
-  Variable P : params.
-  Variable HS : hashes.
-  Hypothesis OK : hashes_ok P HS.
-  Variable pk : bytes.
-  Notation n := (p_n P).
-  Notation COLL := (th_collision HS pk).
-  Variable mkad : N -> N -> address.
-
-  Definition climb_step (tidx idx : N) (auth : bytes) (j : nat) (node : bytes) : bytes :=
-    let ad := mkad (N.of_nat j + 1) (N.shiftr tidx (N.of_nat j + 1)) in
-    if N.eqb (N.land (N.shiftr idx (N.of_nat j)) 1) 0
-    then hH HS pk ad (node ++ chunk P j auth) else hH HS pk ad (chunk P j auth ++ node).
-
-  Lemma climbS_snoc tidx idx auth : forall c k node,
-    climbS P HS mkad (S c) k tidx idx auth pk node
-    = climb_step tidx idx auth (k + c) (climbS P HS mkad c k tidx idx auth pk node).
-  Proof.
-    induction c as [|c IH]; intros k node.
-    - cbn [climbS]. rewrite Nat.add_0_r. reflexivity.
-    - change (climbS P HS mkad (S (S c)) k tidx idx auth pk node)
-        with (climbS P HS mkad (S c) (S k) tidx idx auth pk (climb_step tidx idx auth k node)).
-      rewrite IH. replace (S k + c) with (k + S c) by lia. reflexivity.
-  Qed.
-
-  Lemma shiftr_split x c : N.shiftr x (N.of_nat c) = (2 * N.shiftr x (N.of_nat c + 1) + N.land (N.shiftr x (N.of_nat c)) 1)%N.
-  Proof.
-    rewrite shiftr_succ, shiftr1_div, land1_mod. apply N.div_mod. discriminate.
-  Qed.
-
-  (* two openings of one Merkle tree (cnt levels) at different leaves, same root: they cross *)
-  Lemma merge : forall cnt tidx1 idx1 auth1 node1 tidx2 idx2 auth2 node2,
-    length node1 = n -> length node2 = n ->
-    (forall j, j < cnt -> length (chunk P j auth1) = n /\ length (chunk P j auth2) = n) ->
-    (forall j, j < cnt -> N.land (N.shiftr idx1 (N.of_nat j)) 1 = N.land (N.shiftr tidx1 (N.of_nat j)) 1) ->
-    (forall j, j < cnt -> N.land (N.shiftr idx2 (N.of_nat j)) 1 = N.land (N.shiftr tidx2 (N.of_nat j)) 1) ->
-    N.shiftr tidx1 (N.of_nat cnt) = N.shiftr tidx2 (N.of_nat cnt) -> tidx1 <> tidx2 ->
-    climbS P HS mkad cnt 0 tidx1 idx1 auth1 pk node1 = climbS P HS mkad cnt 0 tidx2 idx2 auth2 pk node2 ->
-    COLL \/ exists kk, kk < cnt /\
-      N.land (N.shiftr tidx1 (N.of_nat kk)) 1 <> N.land (N.shiftr tidx2 (N.of_nat kk)) 1 /\
-      climbS P HS mkad kk 0 tidx1 idx1 auth1 pk node1 = chunk P kk auth2 /\
-      climbS P HS mkad kk 0 tidx2 idx2 auth2 pk node2 = chunk P kk auth1 /\
-      forall j, kk < j < cnt -> chunk P j auth1 = chunk P j auth2.
-  Proof.
-    induction cnt as [|cnt IH]; intros tidx1 idx1 auth1 node1 tidx2 idx2 auth2 node2 L1 L2 Lc B1 B2 Hs Hne E.
-    - exfalso. apply Hne. change (N.of_nat 0) with 0%N in Hs. rewrite !N.shiftr_0_r in Hs. exact Hs.
-    - rewrite !climbS_snoc in E. cbn [Nat.add] in E.
-      set (m1 := climbS P HS mkad cnt 0 tidx1 idx1 auth1 pk node1) in *.
-      set (m2 := climbS P HS mkad cnt 0 tidx2 idx2 auth2 pk node2) in *.
-      assert (Lm1 : length m1 = n) by (apply (climbS_length P HS OK); exact L1).
-      assert (Lm2 : length m2 = n) by (apply (climbS_length P HS OK); exact L2).
-      destruct (Lc cnt ltac:(lia)) as [Lc1 Lc2].
-      unfold climb_step in E. cbv zeta in E.
-      replace (N.of_nat (S cnt)) with (N.of_nat cnt + 1)%N in Hs by lia. rewrite <- Hs in E.
-      rewrite (B1 cnt ltac:(lia)), (B2 cnt ltac:(lia)) in E.
-      set (b1 := N.land (N.shiftr tidx1 (N.of_nat cnt)) 1) in *.
-      set (b2 := N.land (N.shiftr tidx2 (N.of_nat cnt)) 1) in *.
-      assert (Same : b1 = b2 -> m1 = m2 /\ chunk P cnt auth1 = chunk P cnt auth2 \/ COLL).
-      { intros Eb. rewrite <- Eb in E. destruct (N.eqb b1 0).
-        - apply hH_inj in E; [|rewrite !app_length; lia]. destruct E as [E|C]; [left|right; exact C].
-          apply app_inv_length in E; [exact E|lia].
-        - apply hH_inj in E; [|rewrite !app_length; lia]. destruct E as [E|C]; [left|right; exact C].
-          apply app_inv_length in E; [tauto|lia]. }
-      destruct (N.eq_dec b1 b2) as [Eb|Nb].
-      + destruct (Same Eb) as [[Em Ec]|C]; [|left; exact C].
-        assert (Hs' : N.shiftr tidx1 (N.of_nat cnt) = N.shiftr tidx2 (N.of_nat cnt)).
-        { rewrite (shiftr_split tidx1 cnt), (shiftr_split tidx2 cnt). fold b1 b2. rewrite Hs, Eb. reflexivity. }
-        destruct (IH tidx1 idx1 auth1 node1 tidx2 idx2 auth2 node2 L1 L2
-                    ltac:(intros; apply Lc; lia) ltac:(intros; apply B1; lia) ltac:(intros; apply B2; lia) Hs' Hne Em)
-          as [C|(kk & Hk & Hb & X1 & X2 & Up)]; [left; exact C|right].
-        exists kk. split; [lia|]. split; [exact Hb|]. split; [exact X1|]. split; [exact X2|].
-        intros j Hj. destruct (Nat.eq_dec j cnt) as [->|Hn]; [exact Ec|apply Up; lia].
-      + (* the two paths arrive from different sides: they cross here *)
-        assert (Cross : (m1 = chunk P cnt auth2 /\ m2 = chunk P cnt auth1) \/ COLL).
-        { destruct (N.eqb_spec b1 0) as [Z1|Z1]; destruct (N.eqb_spec b2 0) as [Z2|Z2]; try (exfalso; apply Nb; congruence).
-          - apply hH_inj in E; [|rewrite !app_length; lia]. destruct E as [E|C]; [left|right; exact C].
-            apply app_inv_length in E; [|lia]. destruct E as [E1 E2]. split; [exact E1|symmetry; exact E2].
-          - apply hH_inj in E; [|rewrite !app_length; lia]. destruct E as [E|C]; [left|right; exact C].
-            apply app_inv_length in E; [|lia]. destruct E as [E1 E2]. split; [exact E2|symmetry; exact E1].
-          - exfalso. apply Nb. unfold b1, b2 in *. rewrite !land1_mod in *.
-            pose proof (N.mod_lt (N.shiftr tidx1 (N.of_nat cnt)) 2 ltac:(discriminate)).
-            pose proof (N.mod_lt (N.shiftr tidx2 (N.of_nat cnt)) 2 ltac:(discriminate)). lia. }
-        destruct Cross as [[X1 X2]|C]; [right|left; exact C].
-        exists cnt. split; [lia|]. split; [exact Nb|]. split; [exact X1|]. split; [exact X2|]. intros; lia.
-  Qed.
-End MERGE.
-
-Section FORS2.
-  Variable P : params.
-  Variable HS : hashes.
-  Hypothesis OK : hashes_ok P HS.
-  Variable pk : bytes.
-  Notation n := (p_n P).
-  Notation a := (p_a P).
-  Notation COLL := (th_collision HS pk).
-
-  (* the pieces of FORS tree i in a FORS signature, as Algorithm 17 takes them *)
-  Definition fors_sk (i : nat) (s : bytes) : bytes := firstn n (skipn (i * (a + 1) * n) s).
-  Definition fors_auth (i : nat) (s : bytes) : bytes :=
-    firstn ((i + 1) * (a + 1) * n - (i * (a + 1) + 1) * n) (skipn ((i * (a + 1) + 1) * n) s).
-  Definition fors_leaf (l t kp : N) (i : nat) (ind : N) (s : bytes) : bytes :=
-    hF HS pk (mkA l t T_FORSTREE kp 0 (forsLeafIdx P i ind)) (fors_sk i s).
-  (* the node at height kk that the signature s computes in tree i from its revealed leaf at index ind *)
-  Definition fors_partial (l t kp : N) (i : nat) (ind : N) (s : bytes) (kk : nat) : bytes :=
-    climbS P HS (fun h x => mkA l t T_FORSTREE kp h x) kk 0 (forsLeafIdx P i ind) ind (fors_auth i s) pk
-           (fors_leaf l t kp i ind s).
-
-  (* THE PER-TREE EVENT: same index and same opening, or the two openings cross *)
-  Definition tree_consistent (l t kp : N) (i : nat) (ind ind' : N) (s s' : bytes) : Prop :=
-    (ind = ind' /\ fors_sk i s = fors_sk i s' /\ fors_auth i s = fors_auth i s') \/
-    (ind <> ind' /\ exists kk, kk < a /\
-       fors_partial l t kp i ind' s' kk = chunk P kk (fors_auth i s) /\
-       fors_partial l t kp i ind s kk = chunk P kk (fors_auth i s') /\
-       forall j, kk < j < a -> chunk P j (fors_auth i s) = chunk P j (fors_auth i s')).
-
-  Lemma leaf_parity (i : nat) (ind : N) : forall j, j < a ->
-    N.land (N.shiftr ind (N.of_nat j)) 1 = N.land (N.shiftr (forsLeafIdx P i ind) (N.of_nat j)) 1.
-  Proof.
-    intros j Hj. unfold forsLeafIdx. rewrite (leaf_shiftr (N.of_nat i) ind a j) by lia.
-    destruct (shiftl_even (N.of_nat i) (a - j) ltac:(lia)) as [X EX]. rewrite EX.
-    symmetry. apply even_add_land1.
-  Qed.
-
-  Lemma leaf_top (i : nat) (ind : N) : (ind < 2 ^ N.of_nat a)%N -> N.shiftr (forsLeafIdx P i ind) (N.of_nat a) = N.of_nat i.
-  Proof.
-    intros H. unfold forsLeafIdx. rewrite (leaf_shiftr (N.of_nat i) ind a a) by lia.
-    rewrite Nat.sub_diag. change (N.of_nat 0) with 0%N. rewrite N.shiftl_0_r.
-    rewrite N.shiftr_div_pow2, N.div_small by exact H. lia.
-  Qed.
-
-  Lemma fors_tree_rel l t kp i ind ind' s s' : i < p_k P ->
-    length s = p_k P * ((a + 1) * n) -> length s' = p_k P * ((a + 1) * n) ->
-    (ind < 2 ^ N.of_nat a)%N -> (ind' < 2 ^ N.of_nat a)%N ->
-    fors_partial l t kp i ind s a = fors_partial l t kp i ind' s' a ->
-    tree_consistent l t kp i ind ind' s s' \/ COLL.
-  Proof.
-    intros Hi Ls Ls' Hb Hb' E. unfold fors_partial in E.
-    assert (Ea : forall z, length z = p_k P * ((a + 1) * n) -> length (fors_auth i z) = a * n).
-    { intros z Hz. unfold fors_auth. rewrite firstn_length, skipn_length. nia. }
-    assert (Lau : forall z, length z = p_k P * ((a + 1) * n) -> forall j, j < a -> length (chunk P j (fors_auth i z)) = n).
-    { intros z Hz j Hj. apply gchunk_length. rewrite Ea by exact Hz. nia. }
-    assert (Ll : forall x z, length (fors_leaf l t kp i x z) = n) by (intros; apply (hF_len _ _ OK)).
-    destruct (N.eq_dec ind ind') as [<-|Hne].
-    - apply (climb_inj P HS OK) in E; auto.
-      2:{ intros j Hj. split; [apply (Lau s)|apply (Lau s')]; auto; lia. }
-      destruct E as [[El Ec]|C]; [|right; exact C].
-      unfold fors_leaf in El. apply hF_inj in El.
-      2:{ unfold fors_sk. rewrite !firstn_length, !skipn_length. nia. }
-      destruct El as [El|C]; [left; left|right; exact C].
-      split; [reflexivity|]. split; [exact El|].
-      apply (gchunks_eq n a); try (apply Ea; assumption). intros j Hj. apply Ec. lia.
-    - assert (Hl : forsLeafIdx P i ind <> forsLeafIdx P i ind') by (unfold forsLeafIdx; lia).
-      destruct (merge P HS OK pk (fun h x => mkA l t T_FORSTREE kp h x) a
-                  (forsLeafIdx P i ind) ind (fors_auth i s) (fors_leaf l t kp i ind s)
-                  (forsLeafIdx P i ind') ind' (fors_auth i s') (fors_leaf l t kp i ind' s')
-                  (Ll _ _) (Ll _ _)
-                  ltac:(intros j Hj; split; [apply (Lau s)|apply (Lau s')]; auto)
-                  (leaf_parity i ind) (leaf_parity i ind')
-                  ltac:(rewrite !leaf_top by assumption; reflexivity) Hl E)
-        as [C|(kk & Hk & _ & X1 & X2 & Up)]; [right; exact C|left; right].
-      split; [exact Hne|]. exists kk. split; [exact Hk|]. split; [exact X2|]. split; [exact X1|exact Up].
-  Qed.
-
-  (* all k trees *)
-  Definition fors_consistent (l t kp : N) (ind ind' : list N) (s s' : bytes) : Prop :=
-    forall i, i < p_k P -> tree_consistent l t kp i (nth i ind 0%N) (nth i ind' 0%N) s s'.
-
-  Lemma fors_two_openings l t kp ind ind' s s' :
-    length s = p_k P * ((a + 1) * n) -> length s' = p_k P * ((a + 1) * n) ->
-    (forall i, i < p_k P -> (nth i ind 0 < 2 ^ N.of_nat a)%N) -> (forall i, i < p_k P -> (nth i ind' 0 < 2 ^ N.of_nat a)%N) ->
-    forsPkFromSigS P HS l t kp ind s pk = forsPkFromSigS P HS l t kp ind' s' pk ->
-    fors_consistent l t kp ind ind' s s' \/ COLL.
-  Proof.
-    intros Ls Ls' Hb Hb' E. unfold forsPkFromSigS in E.
-    change (hTl HS pk (mkA l t T_FORSROOTS kp 0 0)
-              (flat_map (fun i => fors_partial l t kp i (nth i ind 0%N) s a) (seq 0 (p_k P)))
-            = hTl HS pk (mkA l t T_FORSROOTS kp 0 0)
-              (flat_map (fun i => fors_partial l t kp i (nth i ind' 0%N) s' a) (seq 0 (p_k P)))) in E.
-    assert (LG : forall x z j, length (fors_partial l t kp j (nth j x 0%N) z a) = n).
-    { intros. unfold fors_partial. apply (climbS_length P HS OK). apply (hF_len _ _ OK). }
-    apply hTl_inj in E; [|rewrite !(flat_map_seq_length _ 0 (p_k P) n); auto].
-    destruct E as [E|C]; [|right; exact C].
-    pose proof (flat_map_seq_inj _ _ n (p_k P) 0 ltac:(intros; apply LG) ltac:(intros; apply LG) E) as Ei.
-    assert (G : forall cnt, cnt <= p_k P ->
-              (forall i, i < cnt -> tree_consistent l t kp i (nth i ind 0%N) (nth i ind' 0%N) s s') \/ COLL).
-    { induction cnt as [|cnt IH]; intros Hc; [left; intros; lia|].
-      destruct (IH ltac:(lia)) as [IHa|C]; [|right; exact C].
-      destruct (fors_tree_rel l t kp cnt (nth cnt ind 0%N) (nth cnt ind' 0%N) s s' ltac:(lia) Ls Ls'
-                  (Hb cnt ltac:(lia)) (Hb' cnt ltac:(lia)) (Ei cnt ltac:(lia))) as [T|C]; [left|right; exact C].
-      intros i Hi. destruct (Nat.eq_dec i cnt) as [->|Hn]; [exact T|apply IHa; lia]. }
-    exact (G (p_k P) (le_n _)).
-  Qed.
-End FORS2.
-
-(* ---------- the whole verification: same hypertree leaf, arbitrary FORS indices ---------- *)
-Section TOP2.
+Section GENUINE.
   Variable P : params.
   Variable HS : hashes.
   Hypothesis OK : hashes_ok P HS.
   Hypothesis WF : params_wf P.
+  Notation n := (p_n P).
+  Notation a := (p_a P).
+
+  (* the signature slh_sign_internal produces once R is fixed (Algorithm 19 lines 5-19):
+     R || FORS signature of the digest's md || hypertree signature of the FORS public key *)
+  Definition genuine_sig (skSeed pkSeed pkRoot msg R : bytes) : bytes :=
+    let '(md, it, il) := split_digest P (hHMsg HS R pkSeed pkRoot msg) in
+    let ind := base2b md a (p_k P) in
+    R ++ forsSignS P HS 0 it il ind skSeed pkSeed
+      ++ htSignS P HS (forsPkS P HS 0 it il skSeed pkSeed) skSeed pkSeed it il.
+
+  Lemma ind_lt md i : (nth i (base2b md a (p_k P)) 0 < 2 ^ N.of_nat a)%N.
+  Proof.
+    destruct (Nat.lt_ge_cases i (p_k P)) as [Hi|Hi].
+    - pose proof (base2b_lt md a (p_k P)) as Hl. rewrite Forall_forall in Hl. apply Hl. apply nth_In.
+      rewrite base2b_length. exact Hi.
+    - rewrite nth_overflow by (rewrite base2b_length; lia). apply N.neq_0_lt_0, N.pow_nonzero. lia.
+  Qed.
+
+  (* signInternal is genuine_sig at R = PRF_msg(SK.prf, addrnd, M) *)
+  Lemma signInternal_genuine skSeed skPrf pkSeed pkRoot msg addrnd :
+    signInternal P HS skSeed skPrf pkSeed pkRoot msg addrnd
+    = genuine_sig skSeed pkSeed pkRoot msg (hPrfMsg HS skPrf addrnd msg).
+  Proof.
+    unfold signInternal, genuine_sig. set (R := hPrfMsg HS skPrf addrnd msg).
+    destruct (split_digest P (hHMsg HS R pkSeed pkRoot msg)) as [[md it] il].
+    destruct (forsSign_spec P HS md skSeed pkSeed (forsAdrs it il) eq_refl) as [A B].
+    destruct (forsSign P HS md skSeed pkSeed (forsAdrs it il)) as [sigFors ad1]. cbn [fst snd] in A, B.
+    assert (Ht1 : a_typ ad1 = T_FORSTREE) by (unfold eq23 in B; simpl in B; intuition congruence).
+    destruct (forsPkFromSig_spec P HS sigFors md pkSeed ad1 Ht1) as [A1 B1].
+    destruct (forsPkFromSig P HS sigFors md pkSeed ad1) as [pkFors ad2]. cbn [fst snd] in A1.
+    rewrite htSign_spec. subst pkFors sigFors.
+    destruct B as (b1 & b2 & b3 & b4). rewrite b1, b2, b4. cbn [forsAdrs a_layer a_tree a_kp setKeyPairAddress setTypeAndClear setTreeAddress newAddress].
+    rewrite (forsS_complete P HS OK) by (intros; apply ind_lt). reflexivity.
+  Qed.
+
+  Lemma genuine_sig_length skSeed pkSeed pkRoot msg R : length R = n ->
+    length (genuine_sig skSeed pkSeed pkRoot msg R) = sig_len P.
+  Proof.
+    intros HR. destruct WF as [Hh Hd]. unfold genuine_sig.
+    destruct (split_digest P _) as [[md it] il].
+    rewrite !app_length, HR, forsSignS_length, htSignS_length by auto. unfold sig_len, xmssSigSize. rewrite Hh. nia.
+  Qed.
+
+  (* its parts *)
+  Lemma genuine_sig_parts skSeed pkSeed pkRoot msg R md it il : length R = n ->
+    split_digest P (hHMsg HS R pkSeed pkRoot msg) = (md, it, il) ->
+    let g := genuine_sig skSeed pkSeed pkRoot msg R in
+    firstn n g = R /\
+    sig_fors P g = forsSignS P HS 0 it il (base2b md a (p_k P)) skSeed pkSeed /\
+    sig_ht P g = htSignS P HS (forsPkS P HS 0 it il skSeed pkSeed) skSeed pkSeed it il.
+  Proof.
+    intros HR Esd g. unfold g, genuine_sig. rewrite Esd. destruct WF as [Hh Hd].
+    set (sF := forsSignS P HS 0 it il (base2b md a (p_k P)) skSeed pkSeed).
+    assert (LF : length sF = p_k P * ((a + 1) * n)) by (apply forsSignS_length; auto).
+    split; [apply firstn_app_exact; lia|]. unfold sig_fors, sig_ht. split.
+    - rewrite (skipn_app_exact R) by lia. apply firstn_app_exact. nia.
+    - rewrite app_assoc. apply skipn_app_exact. rewrite app_length. nia.
+  Qed.
+
+  (* the key holder's signature verifies under the generated root, whatever R (n bytes) *)
+  Lemma genuine_sig_verifies skSeed pkSeed msg R : length R = n ->
+    verifyInternal P HS pkSeed (keygenRoot P HS skSeed pkSeed) msg
+      (genuine_sig skSeed pkSeed (keygenRoot P HS skSeed pkSeed) msg R) = true.
+  Proof.
+    intros HR. set (pkRoot := keygenRoot P HS skSeed pkSeed).
+    rewrite verifyInternal_fips. unfold verifyInternalS.
+    rewrite genuine_sig_length, Nat.eqb_refl by exact HR. cbn [negb].
+    destruct (split_digest P (hHMsg HS R pkSeed pkRoot msg)) as [[md it] il] eqn:Esd.
+    destruct (genuine_sig_parts skSeed pkSeed pkRoot msg R md it il HR Esd) as (E1 & E2 & E3).
+    fold (sig_fors P (genuine_sig skSeed pkSeed pkRoot msg R)). fold (sig_ht P (genuine_sig skSeed pkSeed pkRoot msg R)).
+    rewrite E1, Esd, E2, E3.
+    rewrite (forsS_complete P HS OK) by (intros; apply ind_lt).
+    destruct WF as [Hh Hd].
+    unfold pkRoot, keygenRoot. rewrite (proj1 (xmssNode_spec _ _ _ _ _ _ _)).
+    cbn [a_layer a_tree setLayerAddress newAddress]. fold (pkRootS P HS skSeed pkSeed).
+    apply htS_complete; auto.
+    - exact (split_digest_leaf_lt P _ _ _ _ Esd).
+    - replace ((p_d P - 1) * p_hp P) with (p_h P - p_hp P) by nia. exact (split_digest_tree_lt P _ _ _ _ Esd).
+  Qed.
+
+  (* the i-th revealed FORS value of a genuine FORS signature is the PRF secret of leaf ind_i *)
+  Lemma fors_sk_genuine l t kp ind skSeed pkSeed i : i < p_k P ->
+    fors_sk P i (forsSignS P HS l t kp ind skSeed pkSeed)
+    = forsSkS HS l t kp skSeed pkSeed (forsLeafIdx P i (nth i ind 0%N)).
+  Proof.
+    intros Hi. unfold fors_sk, forsSignS.
+    replace (i * (a + 1) * n) with (i * ((a + 1) * n)) by lia.
+    rewrite (skipn_flat_map_seq _ ((a + 1) * n) (p_k P) 0 i); [|intros j _|exact Hi].
+    - cbn [Nat.add]. cbv zeta. rewrite <- app_assoc. apply firstn_app_exact. unfold forsSkS. rewrite (hPrf_len _ _ OK). reflexivity.
+    - cbv zeta. rewrite app_length. unfold forsSkS at 1. rewrite (hPrf_len _ _ OK).
+      rewrite (flat_map_seq_length _ 0 a n) by (intros; apply forsNodeS_len; auto). lia.
+  Qed.
+
   Hypothesis WB : hashes_wfb HS.
   Hypothesis DW : digits_wf P.
-  Notation n := (p_n P).
 
-  Theorem two_accepted_same_leaf : forall pkSeed pkRoot msg sig msg' sig' md md' it il,
-    verifyInternal P HS pkSeed pkRoot msg sig = true ->
-    verifyInternal P HS pkSeed pkRoot msg' sig' = true ->
-    split_digest P (hHMsg HS (firstn n sig) pkSeed pkRoot msg) = (md, it, il) ->
-    split_digest P (hHMsg HS (firstn n sig') pkSeed pkRoot msg') = (md', it, il) ->
-    let ind := base2b md (p_a P) (p_k P) in
-    let ind' := base2b md' (p_a P) (p_k P) in
-    (sig_ht P sig = sig_ht P sig' /\
-     fors_consistent P HS pkSeed 0 it il ind ind' (sig_fors P sig) (sig_fors P sig'))
-    \/ ht_switch P HS pkSeed (sig_ht P sig) (sig_ht P sig') it il
-         (forsPkFromSigS P HS 0 it il ind (sig_fors P sig) pkSeed)
-         (forsPkFromSigS P HS 0 it il ind' (sig_fors P sig') pkSeed) = true
-    \/ th_collision HS pkSeed.
+  (* ANY accepted signature vs the key holder's signature for the same (R, msg) *)
+  Theorem accepted_vs_genuine : forall skSeed pkSeed msg sig',
+    let pkRoot := keygenRoot P HS skSeed pkSeed in
+    verifyInternal P HS pkSeed pkRoot msg sig' = true ->
+    let g := genuine_sig skSeed pkSeed pkRoot msg (firstn n sig') in
+    sig_body P g = sig_body P sig' \/ sig_switch P HS pkSeed pkRoot msg g sig' = true
+    \/ located_collision P HS pkSeed pkRoot msg g sig' = true.
   Proof.
-    intros pkSeed pkRoot msg sig msg' sig' md md' it il V V' Sd Sd' ind ind'.
-    rewrite verifyInternal_fips in V, V'. unfold verifyInternalS in V, V'.
-    destruct (Nat.eqb_spec (length sig) (sig_len P)) as [L|L]; [cbn [negb] in V|discriminate].
-    destruct (Nat.eqb_spec (length sig') (sig_len P)) as [L'|L']; [cbn [negb] in V'|discriminate].
-    rewrite Sd in V. rewrite Sd' in V'. fold ind in V. fold ind' in V'.
-    destruct WF as [Hh Hd].
-    fold (sig_fors P sig) in V. fold (sig_fors P sig') in V'. fold (sig_ht P sig) in V. fold (sig_ht P sig') in V'.
-    set (sF := sig_fors P sig) in *. set (sF' := sig_fors P sig') in *.
-    set (sH := sig_ht P sig) in *. set (sH' := sig_ht P sig') in *.
-    assert (LsF : length sF = p_k P * ((p_a P + 1) * n) /\ length sF' = p_k P * ((p_a P + 1) * n)).
-    { unfold sF, sF', sig_fors. rewrite !firstn_length, !skipn_length, L, L'. unfold sig_len. nia. }
-    assert (LsH : length sH = p_d P * xmssSigSize P /\ length sH' = p_d P * xmssSigSize P).
-    { unfold sH, sH', sig_ht. rewrite !skipn_length, L, L'. unfold sig_len, xmssSigSize. rewrite Hh. nia. }
-    destruct LsF as [LF LF']. destruct LsH as [LH LH'].
-    set (M0 := forsPkFromSigS P HS 0 it il ind sF pkSeed) in *.
-    set (M0' := forsPkFromSigS P HS 0 it il ind' sF' pkSeed) in *.
-    assert (WM : wfb M0 /\ wfb M0' /\ length M0 = n /\ length M0' = n).
-    { unfold M0, M0', forsPkFromSigS. repeat split; try apply (hTl_wfb _ WB); apply (hTl_len _ _ OK). }
-    destruct WM as (WM & WM' & LM & LM').
-    unfold htVerifyS in V, V'. apply beq_eq in V, V'. rewrite <- V' in V. clear V'.
-    unfold ht_switch.
-    change (firstn (xmssSigSize P) sH) with (gchunk (xmssSigSize P) 0 sH) in V.
-    change (firstn (xmssSigSize P) sH') with (gchunk (xmssSigSize P) 0 sH') in V.
-    apply (ht_loop_inj P HS OK pkSeed WB DW sH sH' (p_d P) LH LH') in V;
-      try lia; try apply xmss_out_wfb; try apply xmss_out_len; auto.
-    destruct V as [[V Rest]|[Sw|C]]; [|right; left; rewrite Sw; apply orb_true_r|right; right; exact C].
-    apply (xmss_layer P HS OK pkSeed DW) in V; auto; try (apply gchunk_length; nia).
-    destruct V as [[V0 B0]|[Sw|C]]; [|right; left; rewrite Sw; reflexivity|right; right; exact C].
-    assert (EH : sH = sH').
-    { apply (gchunks_eq (xmssSigSize P) (p_d P)); auto. intros i Hi.
-      destruct (Nat.eq_dec i 0) as [->|Hne]; [exact B0|apply Rest; lia]. }
-    assert (Hb : forall md0 i, i < p_k P -> (nth i (base2b md0 (p_a P) (p_k P)) 0 < 2 ^ N.of_nat (p_a P))%N).
-    { intros md0 i Hi. pose proof (base2b_lt md0 (p_a P) (p_k P)) as Hl.
-      rewrite Forall_forall in Hl. apply Hl. apply nth_In. rewrite base2b_length. exact Hi. }
-    apply (fors_two_openings P HS OK) in V0; auto; try (intros; apply Hb; assumption).
-    destruct V0 as [FC|C]; [left; split; assumption|right; right; exact C].
+    intros skSeed pkSeed msg sig' pkRoot V g.
+    assert (L : length sig' = sig_len P).
+    { unfold verifyInternal in V. destruct (Nat.eqb_spec (length sig') (sig_len P)); [assumption|discriminate]. }
+    assert (HR : length (firstn n sig') = n) by (rewrite firstn_length, L; unfold sig_len; nia).
+    pose proof (genuine_sig_verifies skSeed pkSeed msg (firstn n sig') HR) as Vg. fold pkRoot g in Vg.
+    apply (two_accepted_signatures P HS OK WF WB DW pkSeed pkRoot msg g msg sig' Vg V).
+    unfold selectors.
+    destruct (split_digest P (hHMsg HS (firstn n sig') pkSeed pkRoot msg)) as [[md it] il] eqn:Esd.
+    destruct (genuine_sig_parts skSeed pkSeed pkRoot msg (firstn n sig') md it il HR Esd) as (E1 & _). fold g in E1.
+    rewrite E1, Esd. reflexivity.
   Qed.
-End TOP2.
+
+  (* the genuine body, spelled out: all k revealed FORS values are the PRF secrets at the
+     indices the digest selects (and the rest of the body is the key holder's too) *)
+  Theorem genuine_body_reveals_prf_secrets : forall skSeed pkSeed msg sig' md it il,
+    let pkRoot := keygenRoot P HS skSeed pkSeed in
+    length sig' = sig_len P ->
+    split_digest P (hHMsg HS (firstn n sig') pkSeed pkRoot msg) = (md, it, il) ->
+    sig_body P (genuine_sig skSeed pkSeed pkRoot msg (firstn n sig')) = sig_body P sig' ->
+    sig_fors P sig' = forsSignS P HS 0 it il (base2b md a (p_k P)) skSeed pkSeed /\
+    sig_ht P sig' = htSignS P HS (forsPkS P HS 0 it il skSeed pkSeed) skSeed pkSeed it il /\
+    forall i, i < p_k P ->
+      fors_sk P i (sig_fors P sig')
+      = hPrf HS pkSeed skSeed (mkA 0 it T_FORSPRF il 0 (forsLeafIdx P i (nth i (base2b md a (p_k P)) 0%N))).
+  Proof.
+    intros skSeed pkSeed msg sig' md it il pkRoot L Esd Eb.
+    assert (HR : length (firstn n sig') = n) by (rewrite firstn_length, L; unfold sig_len; nia).
+    destruct (genuine_sig_parts skSeed pkSeed pkRoot msg (firstn n sig') md it il HR Esd) as (_ & E2 & E3).
+    set (g := genuine_sig skSeed pkSeed pkRoot msg (firstn n sig')) in *.
+    assert (Lg : length g = sig_len P) by (apply genuine_sig_length; exact HR).
+    rewrite !(sig_body_parts P) in Eb.
+    destruct (sig_parts_len P WF g Lg) as [LF _]. destruct (sig_parts_len P WF sig' L) as [LF' _].
+    apply app_inv_length in Eb; [|lia]. destruct Eb as [EF EH].
+    rewrite <- EF, <- EH. split; [exact E2|]. split; [exact E3|].
+    intros i Hi. rewrite E2. rewrite fors_sk_genuine by exact Hi. reflexivity.
+  Qed.
+End GENUINE.
